@@ -1,6 +1,5 @@
 (* C02/Inv.v — every account the modelled commands can write is well formed for users.conf
-   (Reader.wf_user: id, name, hashed password, capabilities, nicks, gpg keys; the hostmasks are the
-   one field kept as a domain condition), by induction over the history, reloads included. *)
+   (wf_user: id, name, hashed password, capabilities, hostmasks, nicks, gpg keys), by induction over the history, reloads included. *)
 From Coq Require Import List NArith ZArith Bool Arith Lia ZifyBool Permutation.
 Import ListNotations.
 Require Import Base.Wire Base.PyStr C02.Model C02.Lemmas C02.Bridge C02.Reader.
@@ -167,6 +166,7 @@ Qed.
 Definition mut_inv (a : acct) (m : mut) : Prop :=
   match m with
   | MName n => nonempty n = true /\ name_valid n = true
+  | MHostAdd h => C16.Model.is_user_hostmask h = true
   | MCaps cs => forallb addable (caps a) = true -> forallb addable cs = true
   | _ => True
   end.
@@ -183,6 +183,17 @@ Ltac proj := cbn [a_u C16.Model.u_id C16.Model.u_name C16.Model.u_ignore C16.Mod
                   C16.Model.set_name C16.Model.set_password C16.Model.set_hosts C16.Model.set_secure
                   C16.Model.set_caps caps] in *.
 
+Lemma forallb_In {A} (f : A -> bool) l x : forallb f l = true -> In x l -> f x = true.
+Proof. intros H Hx. rewrite forallb_forall in H. auto. Qed.
+
+Lemma In_iset_add S h x : In x (C16.Model.iset_add S h) -> In x S \/ x = h.
+Proof.
+  unfold C16.Model.iset_add. destruct (C16.Model.iset_mem h S); [left; assumption|].
+  intro H. apply in_app_or in H as [H|[H|[]]]; [left; exact H|right; auto].
+Qed.
+Lemma In_iset_remove S h x : In x (C16.Model.iset_remove S h) -> In x S.
+Proof. unfold C16.Model.iset_remove. intro H. apply filter_In in H. tauto. Qed.
+
 Lemma wf_mutate a m : wf_acct a = true -> mut_inv a m -> wf_acct (mutate a m) = true.
 Proof.
   destruct a as [u au]. destruct u as [id name ign sec hashed pw cs hosts nicks gpg].
@@ -194,6 +205,19 @@ Proof.
     unfold wf_user. proj. rewrite S1, S2.
     repeat match goal with K : _ = true |- _ => rewrite K end. reflexivity.
   - (* MPass *) subst hashed. proj. unfold wf_user. proj. rewrite enc_pw_safe.
+    repeat match goal with K : _ = true |- _ => rewrite K end. reflexivity.
+  - (* MHostAdd *) cbn in Hm.
+    assert (Hh : forallb C16.Model.is_user_hostmask (C16.Model.iset_add hosts h) = true).
+    { apply forallb_forall. intros x Hx. destruct (In_iset_add _ _ _ Hx) as [K|K]; [|subst x; exact Hm].
+      eapply forallb_In; [|exact K]. assumption. }
+    unfold wf_user. proj. rewrite Hh.
+    repeat match goal with K : _ = true |- _ => rewrite K end. reflexivity.
+  - (* MHostDel *)
+    assert (Hh : forallb C16.Model.is_user_hostmask (C16.Model.iset_remove hosts h) = true).
+    { eapply forallb_sub; [|eassumption]. intros x. apply In_iset_remove. }
+    unfold wf_user. proj. rewrite Hh.
+    repeat match goal with K : _ = true |- _ => rewrite K end. reflexivity.
+  - (* MHostClear *) unfold wf_user. proj. cbn [forallb].
     repeat match goal with K : _ = true |- _ => rewrite K end. reflexivity.
   - (* MCaps *) unfold wf_user. proj. rewrite (Hm ltac:(assumption)).
     repeat match goal with K : _ = true |- _ => rewrite K end. reflexivity.
@@ -211,9 +235,6 @@ Proof.
   apply andb_true_iff in H as [Hb Hr].
   destruct (Z.eqb (aid b) (aid a)); simpl; [rewrite Ha, Hr|rewrite Hb, (IH Hr)]; reflexivity.
 Qed.
-
-Lemma forallb_In {A} (f : A -> bool) l x : forallb f l = true -> In x l -> f x = true.
-Proof. intros H Hx. rewrite forallb_forall in H. auto. Qed.
 
 Lemma forallb_filter {A} (f g : A -> bool) l : forallb f l = true -> forallb f (filter g l) = true.
 Proof. intro H. eapply forallb_sub; [|exact H]. intros x Hx. apply filter_In in Hx. tauto. Qed.
@@ -243,8 +264,11 @@ Proof.
   - destruct He as [Hne Hv]. destruct (name_valid_safe _ Hne Hv) as [S1 S2].
     constructor; simpl; [|lia|exact Hc].
     apply forallb_put; [|exact Hu].
-    unfold wf_acct, wf_user, set_pw. destruct addmask; proj; rewrite S1, S2, enc_pw_safe;
-      (replace (0 <=? s_next s + 1)%Z with true by (symmetry; apply Z.leb_le; lia)); reflexivity.
+    unfold wf_acct, wf_user, set_pw.
+    match goal with |- context[if ?b then _ else _] => destruct b eqn:Em end; proj; rewrite S1, S2, enc_pw_safe;
+      (replace (0 <=? s_next s + 1)%Z with true by (symmetry; apply Z.leb_le; lia)); [|reflexivity].
+    apply andb_true_iff in Em as [_ Em]. apply andb_true_iff in Em as [Em _].
+    unfold C16.Model.iset_add. cbn. rewrite Em. reflexivity.
 Qed.
 Transparent mutate.
 
@@ -279,7 +303,7 @@ Proof. unfold d_identify. crack'; fin'. Qed.
 Lemma i_unidentify s E args : eff_inv s (d_unidentify s E args).
 Proof. unfold d_unidentify. crack'; fin'. Qed.
 Lemma i_hostadd s E args : eff_inv s (d_hostadd s E args).
-Proof. unfold d_hostadd. cbv beta zeta. crack'; fin'. Qed.
+Proof. unfold d_hostadd. cbv beta zeta. crack'; fin'; bools; assumption. Qed.
 Lemma i_hostremove s E args : eff_inv s (d_hostremove s E args).
 Proof. unfold d_hostremove. cbv beta zeta. crack'; fin'. Qed.
 Lemma i_setsecure s E args : eff_inv s (d_setsecure s E args).
@@ -360,7 +384,10 @@ Proof.
   repeat match type of H0 with (_ && _ = true) => apply andb_true_iff in H0 as [H0 ?] end.
   assert (Hc : forallb addable (readd cs) = true).
   { eapply forallb_sub; [|eassumption]. apply readd_spec. assumption. }
-  unfold norm, wf_user. proj. rewrite Hc.
+  assert (Hh : forallb C16.Model.is_user_hostmask (fold_left C16.Model.iset_add (map C02.Model.strip_lf hosts) []) = true).
+  { apply forallb_forall. intros x Hx. destruct (In_iset_adds _ _ _ Hx) as [[]|K].
+    apply in_map_iff in K as (h & Eh & Hh). subst x. apply hm_strip. eapply forallb_In; eassumption. }
+  unfold norm, wf_user. proj. rewrite Hc, Hh. cbn [forallb].
   repeat match goal with K : _ = true |- _ => rewrite K end. split; reflexivity.
 Qed.
 
@@ -369,9 +396,9 @@ Proof.
   intros HW (w & Hw & [E|E]); subst v; destruct (wf_norm w (forallb_In _ _ _ HW Hw)); assumption.
 Qed.
 
-Lemma loaded_owner W v :
-  forallb wf_user W = true -> loaded_from W v -> C03.Model.smem OWNER (C16.Model.u_caps v) = true ->
-  exists w, In w W /\ C16.Model.id_of w = C16.Model.id_of v /\ C03.Model.smem OWNER (C16.Model.u_caps w) = true.
+Lemma loaded_cap W v c :
+  forallb wf_user W = true -> loaded_from W v -> C03.Model.smem c (C16.Model.u_caps v) = true ->
+  exists w, In w W /\ C16.Model.id_of w = C16.Model.id_of v /\ C03.Model.smem c (C16.Model.u_caps w) = true.
 Proof.
   intros HW (w & Hw & E) Ho. exists w. split; [exact Hw|].
   pose proof (forallb_In _ _ _ HW Hw) as Hwf. destruct (wf_user_parts _ Hwf) as (_ & _ & _ & _ & _ & Hc & _).
@@ -381,6 +408,10 @@ Proof.
   rewrite Ec in Ho. apply smem_In in Ho. apply In_smem. apply (proj2 (readd_spec _ Hc)). exact Ho.
 Qed.
 
+Lemma loaded_owner W v :
+  forallb wf_user W = true -> loaded_from W v -> C03.Model.smem OWNER (C16.Model.u_caps v) = true ->
+  exists w, In w W /\ C16.Model.id_of w = C16.Model.id_of v /\ C03.Model.smem OWNER (C16.Model.u_caps w) = true.
+Proof. apply loaded_cap. Qed.
 
 Lemma forallb_map_iff {A B} (f : B -> bool) (g : A -> B) l : forallb f (map g l) = forallb (fun x => f (g x)) l.
 Proof. induction l as [|x l IH]; [reflexivity|]. simpl. rewrite IH. reflexivity. Qed.
@@ -390,23 +421,21 @@ Proof.
   intros P H. rewrite forallb_forall in *. intros x Hx. apply H. eapply Permutation_in; [apply Permutation_sym; exact P|exact Hx].
 Qed.
 
-Lemma reload_inv_sub s : Inv s -> hosts_dom s = true ->
+Lemma reload_inv_sub s : Inv s ->
   Inv (reload s) /\ owners_sub (s_users (reload s)) (s_users s).
 Proof.
-  intros [Hu Hn Hc] Hh. unfold reload, C16.Model.write_users.
+  intros [Hu Hn Hc]. unfold reload, C16.Model.write_users.
   set (l := C16.Model.sort_users (db_of s)).
   assert (P : Permutation (db_of s) l) by (apply Permutation_sym, C16.Roundtrip.sort_users_perm).
   assert (Hwf : forallb wf_user l = true).
   { apply (forallb_perm _ _ _ P). unfold db_of. rewrite forallb_map_iff. exact Hu. }
-  assert (Hho : forallb hosts_ok l = true).
-  { apply (forallb_perm _ _ _ P). unfold db_of. rewrite forallb_map_iff. exact Hh. }
   destruct (s_creator s) as [q|] eqn:Eq.
   - pose proof (read_dirty q l Hc Hwf) as K. cbv zeta in K.
     destruct (C16.Model.read_users_from (Some q) (C16.Model.write_sorted_users l)) as [us e].
     cbn [fst] in K. destruct K as (K1 & K2 & K3). rewrite K1, K2, K3. cbn [map].
     split; [constructor; simpl; [reflexivity|lia|exact Hc]|].
     intros z (a & [] & _).
-  - pose proof (read_gen l Hwf Hho) as K. cbv zeta in K.
+  - pose proof (read_gen l Hwf) as K. cbv zeta in K.
     destruct (C16.Model.read_users_from None (C16.Model.write_sorted_users l)) as [us e].
     cbn [fst] in K. destruct K as (K1 & K2 & K3).
     split.
@@ -421,31 +450,45 @@ Proof.
       unfold aid in *. cbn [a_u] in Hz. congruence.
 Qed.
 
-(* the one remaining domain condition, at reload points only: the stored hostmasks are single tokens *)
-Fixpoint reloads_hosts_ok (s : st) (ops : list op) : bool :=
-  match ops with
-  | [] => true
-  | o :: r => (match o with OReload => hosts_dom s | _ => true end) && reloads_hosts_ok (step s o) r
-  end.
-
-Lemma step_inv_sub s o :
-  Inv s -> (match o with OReload => hosts_dom s | _ => true end) = true ->
-  Inv (step s o) /\ owners_sub (s_users (step s o)) (s_users s).
+(* a reload never adds a capability to an account *)
+Lemma reload_caps s a' c : Inv s ->
+  In a' (s_users (reload s)) -> C03.Model.smem c (caps a') = true ->
+  exists a, In a (s_users s) /\ aid a = aid a' /\ C03.Model.smem c (caps a) = true.
 Proof.
-  intros HI Hd. destruct o as [E text| |].
+  intros [Hu Hn Hc]. unfold reload, C16.Model.write_users.
+  set (l := C16.Model.sort_users (db_of s)).
+  assert (P : Permutation (db_of s) l) by (apply Permutation_sym, C16.Roundtrip.sort_users_perm).
+  assert (Hwf : forallb wf_user l = true).
+  { apply (forallb_perm _ _ _ P). unfold db_of. rewrite forallb_map_iff. exact Hu. }
+  destruct (s_creator s) as [q|] eqn:Eq.
+  - pose proof (read_dirty q l Hc Hwf) as K. cbv zeta in K.
+    destruct (C16.Model.read_users_from (Some q) (C16.Model.write_sorted_users l)) as [us e].
+    cbn [fst] in K. destruct K as (K1 & K2 & K3). rewrite K1. cbn [map s_users]. intros [].
+  - pose proof (read_gen l Hwf) as K. cbv zeta in K.
+    destruct (C16.Model.read_users_from None (C16.Model.write_sorted_users l)) as [us e].
+    cbn [fst] in K. destruct K as (K1 & K2 & K3). cbn [s_users].
+    intros Hin Ho. apply in_map_iff in Hin as (v & Ev & Hv). subst a'.
+    destruct (loaded_cap l v c Hwf (K1 v Hv) Ho) as (w & Hw & Hi & Hwo).
+    apply (Permutation_in _ (Permutation_sym P)) in Hw. unfold db_of in Hw.
+    apply in_map_iff in Hw as (a & Ea & Ha). subst w.
+    exists a. split; [exact Ha|]. split; [|exact Hwo]. unfold aid. cbn [a_u]. exact Hi.
+Qed.
+
+Lemma step_inv_sub s o : Inv s -> Inv (step s o) /\ owners_sub (s_users (step s o)) (s_users s).
+Proof.
+  intros HI. destruct o as [E text| |].
   - split; [apply apply_effect_inv; [exact HI|apply effect_of_inv]|apply step_sub; exact Logic.I].
   - split; [exact HI|apply owners_sub_refl].
   - apply reload_inv_sub; assumption.
 Qed.
 
-Lemma run_ops_inv_sub ops : forall s, Inv s -> reloads_hosts_ok s ops = true ->
+Lemma run_ops_inv_sub ops : forall s, Inv s ->
   Inv (run_ops s ops) /\ owners_sub (s_users (run_ops s ops)) (s_users s).
 Proof.
-  unfold run_ops. induction ops as [|o r IH]; intros s HI H; simpl.
+  unfold run_ops. induction ops as [|o r IH]; intros s HI; simpl.
   - split; [exact HI|apply owners_sub_refl].
-  - simpl in H. apply andb_true_iff in H as [H1 H2].
-    destruct (step_inv_sub s o HI H1) as [HI' S1].
-    destruct (IH (step s o) HI' H2) as [HI'' S2].
+  - destruct (step_inv_sub s o HI) as [HI' S1].
+    destruct (IH (step s o) HI') as [HI'' S2].
     split; [exact HI''|eapply owners_sub_trans; eassumption].
 Qed.
 
